@@ -40,7 +40,12 @@ let run () =
          | Some s -> print_endline ("M ok | " ^ dump s); print_endline "S ok | "
          | None -> print_endline "M refused EINVAL"; print_endline ("S " ^ (if int_of_string os = 0 then "refused EINVAL" else "ok | ")))
     | _ ->
+      (* addself i j: addat(i, getat(j, newmem=false)) - the new element is handed in through a pointer into the vector itself;
+         it means: insert a copy of what element j holds before the call *)
+      let self_elem j = let l = !sp in let n = List.length l in let jj = int_of_string j in let jj = if jj < 0 then n + jj else jj in
+                        if jj < 0 || jj >= n then None else Some (List.nth l jj) in
       let o = match ws with
+        | ["addself"; i; j] -> (match self_elem j with Some e -> Some (VAddAt (zi i, Some e)) | None -> Some VSize)
         | ["addat"; i; d] -> Some (VAddAt (zi i, data_arg d))
         | ["addfirst"; d] -> Some (VAddFirst (bytes_of_hex d))
         | ["addlast"; d] -> Some (VAddLast (bytes_of_hex d))
@@ -68,11 +73,12 @@ let run () =
       | _, None -> print_endline "M NOVEC"; print_endline "S NOVEC"
       | Some o, Some s ->
         if !dead then (print_endline "M DEAD"; print_endline "S DEAD") else begin
+          let noself = (match ws with ["addself"; _; j] -> self_elem j = None | _ -> false) in
           (match vstep s o with
-           | Ok (s', ob) -> st := Some s'; print_endline ("M " ^ obs_str cells_hex ob ^ " | " ^ dump s')
+           | Ok (s', ob) -> st := Some s'; print_endline ("M " ^ (if noself then "noself" else obs_str cells_hex ob) ^ " | " ^ dump s')
            | Crash -> dead := true; print_endline "M CRASH"
            | Fuel -> dead := true; print_endline "M FUEL");
           let (l', sob) = vsstep !sp o in
           sp := l';
-          print_endline ("S " ^ obs_str hex_of_bytes sob ^ " | " ^ sdump l')
+          print_endline ("S " ^ (if noself then "noself" else obs_str hex_of_bytes sob) ^ " | " ^ sdump l')
         end)
